@@ -8,7 +8,7 @@
     exponential, instantiated (c) at Coq's [R] with [exp].
     Float caveat: in float64 [exp e] underflows to 0.0 for e < -745; the
     plugin's oracle demands a strictly positive factor only when e > -700. *)
-From Dino Require Import Base.Ops Base.Sums Base.Inst Base.Ord Model.Filters Thm.Filters.
+From Dino Require Import Base.Ops Base.Sums Base.Inst Base.Ord Model.Filters Thm.Filters Gen.FiltersSrc Thm.FiltersSrc.
 From Coq Require Import Reals Qcanon Lra.
 Local Open Scope F_scope.
 
@@ -288,6 +288,41 @@ Proof.
   intro H. discriminate H.
 Qed.
 
+(** ** Tie to the source by translation (regenerated on every run).
+    The exponent / strength formulas the theorems above are about ARE the
+    expressions of dinosaur/filtering.py and dinosaur/time_integration.py:
+    [*_src] are transcribed from the AST by tools/translate/gen_filters.py. *)
+Theorem C15_model_is_source {F : Type} {o : Ops F} {Fc : FieldC o}
+    (a c scale r dt rr p0 c0 f0 : F) (tau : arr) (p order lmax l L : nat) (lw : nat -> nat) idx :
+  exp_exponent a c p lmax l = exp_exponent_src a c p (fnat l) (fnat lmax) /\
+  hd_exponent scale r order l = hd_exponent_src scale (lap_eig r l) order /\
+  snd (exp_step_att dt tau) idx = exp_step_att_src dt (snd tau idx) /\
+  snd (exp_step_att dt tau) idx = exp_leapfrog_att_src dt (snd tau idx) /\
+  snd (hd_step_scale L lw dt tau r order) idx = hd_step_scale_src dt (snd tau idx) (max_abs_eig L lw r) order /\
+  ra_value rr p0 c0 f0 = ra_value_src rr p0 c0 f0.
+Proof.
+  split; [apply exp_exponent_matches_source|].
+  split; [apply hd_exponent_matches_source|].
+  split; [apply (exp_step_att_matches_source dt tau idx)|].
+  split; [apply (exp_step_att_matches_source dt tau idx)|].
+  split; [apply hd_step_scale_matches_source|].
+  apply ra_value_matches_source.
+Qed.
+
+Theorem C15_source_defaults_and_adapters :
+  gen_filters_ok = true /\
+  exp_step_adapter_is_runge_kutta = true /\ exp_leapfrog_adapter_is_leapfrog = true /\
+  (default_exp_attenuation == 16)%Q /\ (default_exp_order == 18)%Q /\ (default_exp_cutoff == 0)%Q /\
+  (default_hd_order == 1)%Q /\ (default_hd_step_order == 1)%Q /\
+  (default_step_tau == 10938 # 1000000)%Q /\ (default_lf_tau == default_step_tau)%Q /\
+  (default_step_order == 18)%Q /\ (default_lf_order == 18)%Q /\
+  (default_step_cutoff == 0)%Q /\ (default_lf_cutoff == 0)%Q.
+Proof.
+  split; [exact gen_filters_complete|]. split; [apply filter_adapters_as_modelled|].
+  split; [apply filter_adapters_as_modelled|]. exact filter_defaults_documented.
+Qed.
+
+
 Print Assumptions C15_scaling_in_unit_interval.
 Print Assumptions C15_mean_untouched.
 Print Assumptions C15_non_increasing.
@@ -309,3 +344,5 @@ Print Assumptions C15_non_increasing_R.
 Print Assumptions C15_semigroup_R.
 Print Assumptions C15_exp_hypotheses_R.
 Print Assumptions C15_hyps_satisfiable.
+Print Assumptions C15_model_is_source.
+Print Assumptions C15_source_defaults_and_adapters.
